@@ -273,6 +273,7 @@ pub struct History {
     pub failed_tx: u64,
     pub panics: u64,
     pub kinds: BTreeMap<String, (u64, u64)>,
+    pub errs: BTreeMap<String, u64>,
     /// cheap mode: skip snapshots (used by workloads whose monitors do their own observation)
     pub snapshots: bool,
 }
@@ -294,6 +295,7 @@ impl History {
             failed_tx: 0,
             panics: 0,
             kinds: BTreeMap::new(),
+            errs: BTreeMap::new(),
             snapshots: true,
         }
     }
@@ -324,6 +326,11 @@ impl History {
         } else {
             e.1 += 1;
             self.failed_tx += 1;
+            if !out.fault_fired {
+                let mut c: String = out.err_text().chars().filter(|c| !c.is_ascii_digit()).collect();
+                c.truncate(110);
+                *self.errs.entry(format!("{}: {}", op.kind(), c)).or_insert(0) += 1;
+            }
         }
         if out.panicked {
             self.panics += 1;
